@@ -448,6 +448,9 @@ func c11Run(c c11Case) (v vVerdict) {
 				e.nsamp, e.npre = st.Nsamp, st.Npre
 			}
 		case "proj":
+			if e.nsamp > 100000 {
+				continue // (after an accepted giant record length a projector matrix would not fit into memory)
+			}
 			nb := 2
 			pbo := &ProjectorsBasisObject{ChannelIndex: st.Src, ModelDescription: "verif"}
 			prow, pcol, brow, bcol := nb, e.nsamp, e.nsamp, nb
@@ -769,7 +772,7 @@ func c11GenStep(t *rapid.T, c *c11Case) c11Step {
 		}
 		return st
 	case k < 6:
-		return c11Step{Op: "lengths", Nsamp: rapid.SampledFrom([]int{c.Nsamp, 20, 64, 0, -5, 4, 3, 150}).Draw(t, "ns"), Npre: rapid.SampledFrom([]int{c.Npre, 3, 10, 0, -1, 2, 63, 200}).Draw(t, "np")}
+		return c11Step{Op: "lengths", Nsamp: rapid.SampledFrom([]int{c.Nsamp, 20, 64, 0, -5, 4, 3, 150, 1 << 30, 1<<31 + 7, 1 << 62}).Draw(t, "ns"), Npre: rapid.SampledFrom([]int{c.Npre, 3, 10, 0, -1, 2, 63, 200}).Draw(t, "np")}
 	case k < 8:
 		return c11Step{Op: "proj", Src: idx("pchan"), Flag: rapid.Bool().Draw(t, "which"),
 			Kind: rapid.SampledFrom([]string{"valid", "valid", "wrongshape", "mismatched", "truncated", "short", "empty", "hugeheader", "garbage", "badbase64"}).Draw(t, "pkind")}
